@@ -136,7 +136,12 @@ func genBeh(r *lib.Rng, g *offGen, sc *scenario, flaky int) beh {
 	if lim > 1<<40 {
 		lim = 1 << 40
 	}
-	switch r.Intn(3) {
+	switch r.Intn(4) {
+	case 3:
+		if sc.timeout > 1<<40 {
+			return beh{1, v, 0}
+		}
+		return beh{4, v, 0} // never comes back within the round, ignores the context
 	case 0:
 		return beh{1, v, r.Range(0, 2*lim)}
 	case 1:
